@@ -394,8 +394,9 @@ def build():
                               + ((" " + FIFTH_PASS[pid][0]) if pid in FIFTH_PASS else "")
                               + ((" " + SIXTH_PASS[pid][0]) if pid in SIXTH_PASS else "")
                               + ((" " + SEVENTH_PASS[pid][0]) if pid in SEVENTH_PASS else "")
-                              + ((" " + EIGHTH_PASS[pid][0]) if pid in EIGHTH_PASS else ""),
-                              "design_ref": c["design"] + (", 9.5" if "9.5" not in c["design"] else "") + ", 9.8, 9.9, 9.10, 9.11, 9.12, 9.13, 9.14, 9.15, 9.16, 9.17"},
+                              + ((" " + EIGHTH_PASS[pid][0]) if pid in EIGHTH_PASS else "")
+                              + ((" " + NINTH_PASS[pid][0]) if pid in NINTH_PASS else ""),
+                              "design_ref": c["design"] + (", 9.5" if "9.5" not in c["design"] else "") + ", 9.8, 9.9, 9.10, 9.11, 9.12, 9.13, 9.14, 9.15, 9.16, 9.17, 9.18"},
             "level_note": c["note"],
             "technique": c["technique"] + (("; " + SECOND_PASS[pid][1]) if SECOND_PASS.get(pid, ("", ""))[1] else "")
             + (("; " + THIRD_PASS[pid][1]) if pid in THIRD_PASS else "")
@@ -403,7 +404,8 @@ def build():
             + (("; " + FIFTH_PASS[pid][1]) if pid in FIFTH_PASS else "")
             + (("; " + SIXTH_PASS[pid][1]) if pid in SIXTH_PASS else "")
             + (("; " + SEVENTH_PASS[pid][1]) if pid in SEVENTH_PASS else "")
-            + (("; " + EIGHTH_PASS[pid][1]) if pid in EIGHTH_PASS else ""),
+            + (("; " + EIGHTH_PASS[pid][1]) if pid in EIGHTH_PASS else "")
+            + (("; " + NINTH_PASS[pid][1]) if pid in NINTH_PASS else ""),
         })
     man = {
         "version": 1,
@@ -694,6 +696,29 @@ SEVENTH_PASS = {
     "C19": ("Second hunt and round 7: the argument of an addition is checked for its shape before the sum; a refused first addition is "
             "rolled back; a 'not there' handler of a view helper stands for one cell.", "refusal-before-effect and roll-back rules, try-scope rule"),
     "C20": ("Round 7: the array helper distributes rows (arrays with several columns are evaluated).", "finite evaluation with two-dimensional arrays"),
+}
+
+NINTH_PASS = {
+    "C02": ("Round 9: the array in which the system-bath interaction collects its operators has a fixed floating element type.",
+            "element-type rule on arrays filled operator by operator"),
+    "C01": ("Round 9: sums of Foerster rates taken at once (numpy.sum over one axis of the rate array, before the loop nest) are part "
+            "of the interpreted assembly.", "index algebra with sums over one axis of an array"),
+    "C03": ("Round 9: a method that takes its parameters as a dictionary leaves the caller's dictionary (and the shared default) as it is.",
+            "argument-mutation rule on dictionary parameters"),
+    "C07": ("Round 9: the operator components a tensor transforms in place are its own arrays, never an array of the system-bath "
+            "interaction kept without a copy.", "stored-input alias analysis (shared with C15-E3) on the tensors with an operator form"),
+    "C08": ("Round 9: the generator a superoperator is computed from owns its operator components (two forms built from one "
+            "interaction do not transform one array twice).", "stored-input alias analysis (shared with C15-E3)"),
+    "C10": ("Round 9: the list of modes of a molecule and the counter the state generators run over move in step.",
+            "list/counter pairing with exits in between"),
+    "C11": ("Round 9: an attribute of the caller's time axis that a calculator saves, overwrites and restores is restored on every way out.",
+            "save/overwrite/restore pairing over quantarhei.spectroscopy"),
+    "C13": ("Round 9: what an axis is told about its conjugate axis at construction is kept on every path through the constructor.",
+            "constructor-parameter analysis, all-paths mode"),
+    "C14": ("Round 9: a state handed out inside nested contexts reaches the current basis through the outer-first product of the "
+            "stacked transformations (decided by role, shared with C04-B5).", "composition-order rule by role"),
+    "C20": ("Round 9: the range calculators are functions of their arguments - of the shared configuration they read only size and "
+            "rank, or what they stored in the same call.", "read-set rule on the shared configuration"),
 }
 
 EIGHTH_PASS = {
